@@ -18,6 +18,7 @@ import (
 
 	"github.com/fxamacker/cbor/v2"
 	"go.flow.arcalot.io/pluginsdk/atp"
+	"go.flow.arcalot.io/pluginsdk/schema"
 	"gopkg.in/yaml.v3"
 )
 
@@ -83,6 +84,9 @@ func compactToTree(v any) (*Tree, error) {
 				return &Tree{K: "num", I: i, Rep: "u"}, nil
 			case "z":
 				return tNil(), nil
+			case "pu":
+				name, _ := w.(string)
+				return &Tree{K: "pkgunits", S: name}, nil
 			case "l":
 				arr, ok := w.([]any)
 				if !ok {
@@ -152,6 +156,8 @@ func (t *Tree) MarshalJSON() ([]byte, error) {
 		return json.Marshal(map[string]any{"k": "bool", "v": t.B})
 	case "nil":
 		return []byte(`{"k":"nil"}`), nil
+	case "pkgunits":
+		return json.Marshal(map[string]any{"k": "pkgunits", "v": t.S})
 	case "list":
 		l := t.L
 		if l == nil {
@@ -179,7 +185,7 @@ func (t *Tree) UnmarshalJSON(b []byte) error {
 	}
 	t.K = raw.K
 	switch raw.K {
-	case "str":
+	case "str", "pkgunits":
 		return json.Unmarshal(raw.V, &t.S)
 	case "num":
 		t.Rep = raw.Rep
@@ -257,6 +263,8 @@ func (t *Tree) writeCanon(sb *strings.Builder) {
 		fmt.Fprintf(sb, "%v", t.B)
 	case "nil":
 		sb.WriteString("nil")
+	case "pkgunits":
+		sb.WriteString("<units:" + t.S + ">")
 	case "list":
 		sb.WriteString("[")
 		for i, e := range t.L {
@@ -356,6 +364,8 @@ func (t *Tree) toGo() any {
 		return t.B
 	case "nil":
 		return nil
+	case "pkgunits":
+		return cloneVal(pkgUnitsDesc(t.S))
 	case "list":
 		l := make([]any, len(t.L))
 		for i, e := range t.L {
@@ -432,6 +442,9 @@ func fromGo(v any) (*Tree, error) {
 		}
 		return t, nil
 	case reflect.Map:
+		if name := matchPkgUnits(v); name != "" {
+			return &Tree{K: "pkgunits", S: name}, nil
+		}
 		t := &Tree{K: "map", M: []Entry{}}
 		for _, k := range rv.MapKeys() {
 			kt, err := fromGo(k.Interface())
@@ -451,6 +464,98 @@ func fromGo(v any) (*Tree, error) {
 		return t, nil
 	}
 	return nil, fmt.Errorf("%T has no abstract counterpart", v)
+}
+
+// ----- the descriptions of the package-level unit sets (one token in the model: spec/Meta.tla PU)
+
+var pkgUnitsDescs map[string]any
+var pkgUnitsCanon map[string]string
+
+func initPkgUnits() {
+	if pkgUnitsDescs != nil {
+		return
+	}
+	pkgUnitsDescs, pkgUnitsCanon = map[string]any{}, map[string]string{}
+	for name, u := range pkgUnits {
+		// the real description: what SelfSerialize emits for a number measured in that unit set
+		sc := schema.NewScopeSchema(schema.NewObjectSchema("A", map[string]*schema.PropertySchema{
+			"p": schema.NewPropertySchema(schema.NewIntSchema(nil, nil, u), nil, false, nil, nil, nil, nil, nil)}))
+		d, err := sc.SelfSerialize()
+		if err != nil {
+			panic("harness: package units " + name + " cannot be described: " + err.Error())
+		}
+		var node any = d
+		for _, k := range []string{"objects", "A", "properties", "p", "type", "units"} {
+			rv := reflect.ValueOf(node)
+			node = rv.MapIndex(convertKey(reflect.ValueOf(k), rv)).Interface()
+		}
+		pkgUnitsDescs[name] = node
+		pkgUnitsCanon[name] = numCanon(node)
+	}
+}
+
+func pkgUnitsDesc(name string) any {
+	initPkgUnits()
+	d, ok := pkgUnitsDescs[name]
+	if !ok {
+		panic("harness: unknown package units " + name)
+	}
+	return d
+}
+
+// matchPkgUnits: is v the description of one of the package-level unit sets (whatever the integer
+// representation)?
+func matchPkgUnits(v any) string {
+	rv := reflect.ValueOf(v)
+	if rv.Kind() != reflect.Map || rv.Len() != 2 {
+		return ""
+	}
+	initPkgUnits()
+	c := numCanon(v)
+	for _, name := range pkgUnitNames {
+		if pkgUnitsCanon[name] == c {
+			return name
+		}
+	}
+	return ""
+}
+
+// numCanon renders a value canonically, numbers by value only.
+func numCanon(v any) string {
+	if v == nil {
+		return "nil"
+	}
+	rv := reflect.ValueOf(v)
+	switch rv.Kind() {
+	case reflect.Map:
+		var es []string
+		for _, k := range rv.MapKeys() {
+			es = append(es, numCanon(k.Interface())+":"+numCanon(rv.MapIndex(k).Interface()))
+		}
+		sort.Strings(es)
+		return "{" + strings.Join(es, ",") + "}"
+	case reflect.Slice:
+		var es []string
+		for i := 0; i < rv.Len(); i++ {
+			es = append(es, numCanon(rv.Index(i).Interface()))
+		}
+		return "[" + strings.Join(es, ",") + "]"
+	case reflect.Int, reflect.Int8, reflect.Int16, reflect.Int32, reflect.Int64:
+		return fmt.Sprintf("n%d", rv.Int())
+	case reflect.Uint, reflect.Uint8, reflect.Uint16, reflect.Uint32, reflect.Uint64:
+		return fmt.Sprintf("n%d", rv.Uint())
+	case reflect.Float32, reflect.Float64:
+		if f := rv.Float(); f == math.Trunc(f) && math.Abs(f) < 1e18 {
+			return fmt.Sprintf("n%d", int64(f))
+		}
+		return fmt.Sprintf("f%v", rv.Float())
+	case reflect.Interface, reflect.Pointer:
+		if rv.IsNil() {
+			return "nil"
+		}
+		return numCanon(rv.Elem().Interface())
+	}
+	return fmt.Sprintf("%T:%v", v, v)
 }
 
 // ----- strict comparison of two descriptions as Go values (nil and empty containers are equal;
